@@ -60,25 +60,27 @@ class LogGroup(Sub):
         def s(draw):
             lt = draw(st.sampled_from(R.GROUPS))
             dtype = draw(st.sampled_from(gen.DTYPES))
-            shape = draw(gen.lshape(max_rank=2, extents=(1, 2, 3), max_items=3))
+            shape = draw(gen.lshape(max_rank=2, extents=(1, 2, 3), max_items=6))
             n = int(np.prod(shape)) if shape else 1
             items, regs = [], []
             for _ in range(n):
                 X, reg = draw(gen.group(lt, dtype))
                 items.append(X); regs.append(reg)
-            return {"ltype": lt, "dtype": dtype, "lshape": shape, "items": items, "regs": regs, "fn": draw(st.booleans())}
+            return {"ltype": lt, "dtype": dtype, "lshape": shape, "items": items, "regs": regs, "fn": draw(st.booleans()),
+                    "view": draw(st.sampled_from(tu.VIEWS))}
         return s()
 
     def oracle(self, case, rec):
         lt, dtype, shape, items = case["ltype"], case["dtype"], case["lshape"], case["items"]
         alt = R.ALG_OF[lt]
         eps = tu.EPS[dtype]
-        X = tu.lie(lt, items, dtype, shape=shape)
+        X = tu.lie(lt, items, dtype, shape=shape, view=case.get("view"))
+        rec.label("layout:" + ("contiguous" if X.tensor().is_contiguous() else "noncontiguous:" + str(case.get("view"))))
         neg = []
         for it in items:
             t, q, s = R.split_group(lt, it)
             neg.append(R.join_group(lt, t, -np.asarray(q), s).tolist())
-        Xn = tu.lie(lt, neg, dtype, shape=shape)
+        Xn = tu.lie(lt, neg, dtype, shape=shape, view=case.get("view"))
         with rec.sut("Log"):
             x = pp.Log(X) if case["fn"] else X.Log()
             xn = Xn.Log()
@@ -144,7 +146,7 @@ class RoundTrip(Sub):
         def s(draw):
             lt = draw(st.sampled_from(R.ALGEBRAS))
             dtype = draw(st.sampled_from(gen.DTYPES))
-            shape = draw(gen.lshape(max_rank=2, extents=(1, 2, 3), max_items=3))
+            shape = draw(gen.lshape(max_rank=2, extents=(1, 2, 3), max_items=6))
             n = int(np.prod(shape)) if shape else 1
             items, regs = [], []
             for _ in range(n):
@@ -158,12 +160,13 @@ class RoundTrip(Sub):
                     x = gen.rnd_list(R.join_alg(lt, tau, phi, sigma).tolist(), dtype)
                     reg = dict(reg, phi="nearpi")
                 items.append(x); regs.append(reg)
-            return {"ltype": lt, "dtype": dtype, "lshape": shape, "items": items, "regs": regs}
+            return {"ltype": lt, "dtype": dtype, "lshape": shape, "items": items, "regs": regs, "view": draw(st.sampled_from(tu.VIEWS))}
         return s()
 
     def oracle(self, case, rec):
         lt, dtype, shape, items = case["ltype"], case["dtype"], case["lshape"], case["items"]
-        x = tu.lie(lt, items, dtype, shape=shape)
+        x = tu.lie(lt, items, dtype, shape=shape, view=case.get("view"))
+        rec.label("layout:" + ("contiguous" if x.tensor().is_contiguous() else "noncontiguous:" + str(case.get("view"))))
         with rec.sut("Log(Exp)"):
             y = x.Exp().Log()
         rec.label(lt, dtype)
